@@ -44,6 +44,20 @@ def solve_one(name, smt2, z3_timeout, cvc5_timeout, scratch, use_cvc5=True):
     try:
         with os.fdopen(fd, "w") as f:
             f.write(smt2)
+        if "fp." in smt2:
+            # floating-point obligations: cvc5's bit-blaster decides the 16-bit instances in ~20-60 s where z3 needs > 300 s
+            cpath = path + ".cvc5.smt2"
+            with open(cpath, "w") as f:
+                f.write("(set-logic ALL)\n" + smt2)
+            try:
+                r2, dt2, reason2 = _run([CVC5, f"--tlimit={int(z3_timeout * 1000)}", cpath], z3_timeout)
+            finally:
+                os.unlink(cpath)
+            if r2 in ("sat", "unsat"):
+                return name, {"result": r2, "solver": "cvc5-1.0.3", "time_s": round(dt2, 3), "reason": ""}
+            res, dt, reason = _run([Z3CLI, "-smt2", f"-T:{max(1, int(z3_timeout / 3))}", path], z3_timeout / 3)
+            return name, {"result": res if res in ("sat", "unsat") else "unknown", "solver": "z3-5.1.0", "time_s": round(dt + dt2, 3),
+                          "reason": f"cvc5: {r2} {reason2} | z3: {reason or res}"[:300]}
         # portfolio in sequence: z3 briefly, then cvc5, then z3 with the full budget
         first = min(2.0, z3_timeout)
         res, dt, reason = _run([Z3CLI, "-smt2", f"-T:{max(1, int(first))}", path], first)
